@@ -54,6 +54,12 @@ def rule_template(chk):
     tpl, top, lines, table, mod = template_shape()
     cls = M.find_class(mod, 'Integrator')
     meths = M.methods(cls)
+    # times and step sizes are carried in double precision: nothing in the compiled integrator is declared with the C type float (single precision in Cython)
+    sp = M.single_precision_declarations(mod)
+    chk.decide(not sp, 'step-bookkeeping', 'times-in-double-precision', node=sp[0][2] if sp else cls, file=TPL, func='Integrator',
+               detail_bad='%s declared `%s`: the C type float is single precision, the stage time t = orig_t + stage_dt is then rounded to 7 digits (callbacks, steppers and equations that '
+                          'use t see a time that differs from the literal execution of one_timestep)' % (', '.join('`%s`' % n_ for n_, t_, x_ in sp), sp[0][1] if sp else ''),
+               detail_ok='no single-precision declaration in the compiled integrator')
     # -- stage wrapper: the method whose name is a placeholder bound to the loop over wrapper names
     wrappers = [f for n, f in meths.items() if n in table]
     if len(wrappers) != 1:
